@@ -146,4 +146,17 @@ CHECKS = {
         "note": "the unsynchronised access to the capability map by two goroutines is modelled as atomic (see assumptions)",
         "technique": "Lean 4 proof (history invariant by induction over action sequences) + regenerated tie lemmas + exact and burst correspondence runs",
     },
+    "C04": {
+        "text": "Lean 4 invariant over all action sequences of the call machine (any number of clients and connections; "
+                "request, execution and response of every call interleave freely; frames of other kinds; uninterpreted "
+                "method semantics): ids of distinct calls differ (one counter), a response only matches its own caller's "
+                "handler, a returned result is the method's result on the call's own argument with exactly one execution, "
+                "executions and responses never exceed one, an error outcome means nothing ran, a post to an existing "
+                "method is never answered, frames that are neither call nor post run nothing, no state is stuck; the two "
+                "repaired defects are kept as refutation theorems of the old choices; tied by regenerated client / "
+                "dispatch / stub / generator / channel facts and by exact server-side, exact client-side and concurrent runs",
+        "note": "exactly-once delivery of frames is C01/C10's statement and an assumption here; a post to a missing target is "
+                "answered with an error frame (known finding)",
+        "technique": "Lean 4 proof (per-call stage invariant by induction over action sequences, refutation witnesses) + regenerated tie lemmas + exact and concurrent correspondence runs",
+    },
 }
